@@ -1,5 +1,6 @@
 // vstd: verification model of the parts of the C++ standard library nitro uses.
 #pragma once
+#define __VSTD_MODEL__ 1
 #include <stddef.h>
 #ifndef VSTD_STR_CAP
 #define VSTD_STR_CAP 15
